@@ -276,3 +276,49 @@ def run(ctx, rep):
             rep.ok("C19.3", cons, "isinstance(stmt, LoopStatement) guards a raise JaqalError inside the chunking loop", f"{f.path}:{guard.lineno}")
         else:
             rep.violation("C19.3", cons, "no LoopStatement test raising JaqalError in the chunking generator: a loop inside a parallel block is scheduled as a single step", f.loc())
+
+    # ------------------------------------------------------------ C19.5
+    rep.rule("C19.5", "whether the unroller keeps a block whole depends on the block's kind alone: a subcircuit or parallel block is never dissolved because of its contents", floor=1)
+    n5 = 0
+    for h in helpers:
+        bh = ix.classes[h].methods.get("visit_BlockStatement")
+        if bh is None or not any(isinstance(n, (ast.Yield, ast.YieldFrom)) for n in walk_no_nested(bh.node)):
+            continue
+        n5 += 1
+        obj = bh.params[1]
+        fl = FuncFlow(ix, T, bh)
+        whole = [n for n in walk_no_nested(bh.node) if isinstance(n, ast.Yield) and isinstance(n.value, ast.Name) and n.value.id == obj]
+        parts = [n for n in walk_no_nested(bh.node) if isinstance(n, (ast.Yield, ast.YieldFrom)) and n not in whole]
+        cons = construct_of(bh, "keep-whole-by-kind")
+        if not whole or not parts:
+            rep.undecided("C19.5", cons, "expected one path yielding the block whole and one yielding its statements", bh.loc())
+            continue
+
+        def is_kind(a):
+            if isinstance(a, ast.UnaryOp) and isinstance(a.op, ast.Not):
+                a = a.operand
+            return isinstance(a, ast.Attribute) and isinstance(a.value, ast.Name) and a.value.id == obj and a.attr in ("parallel", "subcircuit")
+
+        bad = None
+        for y in whole:
+            for t in fl.control_tests(y):
+                for m in ast.walk(t):
+                    if isinstance(m, ast.BoolOp) and isinstance(m.op, ast.And):
+                        other = [v for v in m.values if not is_kind(v) and not (isinstance(v, ast.BoolOp) and all(is_kind(x) for x in v.values))]
+                        kinds = [v for v in m.values if v not in other]
+                        if other and kinds:
+                            bad = (t, other[0])
+        reads = set()
+        for p_ in parts:
+            for t in fl.control_tests(p_):
+                for m in ast.walk(t):
+                    if isinstance(m, ast.Attribute) and isinstance(m.value, ast.Name) and m.value.id == obj:
+                        reads.add(m.attr)
+        if bad is not None:
+            rep.violation("C19.5", cons, f"the block is kept whole only if `{ast.unparse(bad[1])}` also holds (`{ast.unparse(bad[0])}`): a subcircuit or parallel block for which it fails is dissolved into its statements and its flag and repetition count are lost", f"{bh.path}:{bad[0].lineno}")
+        elif not {"parallel", "subcircuit"} <= reads:
+            rep.violation("C19.5", cons, f"the path that dissolves a block into its statements is not guarded by both kind flags (reads {sorted(reads)}): a {'subcircuit' if 'subcircuit' not in reads else 'parallel'} block is flattened", bh.loc())
+        else:
+            rep.ok("C19.5", cons, "kept whole iff parallel or subcircuit", bh.loc())
+    if n5 == 0:
+        rep.undecided("C19.5", cls_construct(ix, vis, "unroller"), "no generator-style block handler among the helper visitors")
